@@ -7,6 +7,8 @@ from fractions import Fraction
 
 import numpy as np
 
+from .. import shapes as S
+
 from ..core import fmt_list, parse_ints, frac, err_kind
 
 ID = "C10"
@@ -57,6 +59,43 @@ def _float_cases(rng, n):
                "float": True}
 
 
+def _long_cases(rng, n):
+    """long arrays with few queries far apart (looking a handful of values up in a long series): positions aligned
+    with powers of two and their neighbours, queries equal to / between the elements, first query anywhere"""
+    for _ in range(n):
+        L = rng.choice([1025, 2049, 4097, 4100, 8193, 9001, 12289, 16385]) + rng.choice([0, 0, 1, -1, 7])
+        if rng.random() < 0.5:
+            xs = [float(i) for i in range(L)]
+        else:
+            step = rng.choice([0.25, 0.5, 3.0])
+            off = rng.uniform(-50, 50)
+            xs = [off + step * i + (0.0 if rng.random() < 0.5 else step * 0.25 * ((i * 7919) % 3 - 1)) for i in range(L)]
+            xs = sorted(set(xs))
+            L = len(xs)
+        k = rng.choice([6, 8, 10, 11, 12, 12, 12, 13])
+        pos = []
+        p = rng.choice([0, 0, 17, 1, 2 ** k - 1, 2 ** k])
+        while p < L:
+            pos.append(p)
+            p += (2 ** k) * rng.choice([1, 1, 1, 2]) + rng.choice([0, 0, 0, 0, 1, -1])
+        pos = sorted({min(max(i, 0), L - 1) for i in pos})[:12]
+        qs = []
+        for i in pos:
+            r = rng.random()
+            if r < 0.6:
+                qs.append(xs[i])
+            elif r < 0.8 and i + 1 < L:
+                qs.append((xs[i] + xs[i + 1]) / 2)
+            elif r < 0.9:
+                qs.append(math.nextafter(xs[i], math.inf))
+            else:
+                qs.append(math.nextafter(xs[i], -math.inf))
+        qs.sort()
+        s, f = rng.choice(VARIANTS)
+        yield {"x": [str(Fraction(v)) for v in xs], "q": [str(Fraction(v)) for v in qs], "s": s, "fill": f,
+               "float": True, "long": True}
+
+
 def _malformed(rng, n):
     for _ in range(n):
         xs = sorted({rng.randint(-5, 5) for _ in range(rng.randint(0, 4))})
@@ -77,14 +116,17 @@ def _malformed(rng, n):
 
 def cases(rng, tier):
     if tier == "quick":
+        yield from _long_cases(rng, 60)
         yield from _lattice_cases(4, 4, 3)
         yield from _float_cases(rng, 2000)
         yield from _malformed(rng, 300)
     elif tier == "thorough":
+        yield from _long_cases(rng, 600)
         yield from _lattice_cases(5, 5, 4)
         yield from _float_cases(rng, 20000)
         yield from _malformed(rng, 2000)
     else:  # search
+        yield from _long_cases(rng, 40)
         yield from _float_cases(rng, 1500)
         yield from _lattice_cases(3, 3, 2)
         yield from _malformed(rng, 100)
@@ -103,8 +145,8 @@ def request(c):
 def run_impl(c):
     from traffic_weaver import sorted_array_utils as sau
     x, q = _vals(c)
-    xa = np.array([float(v) for v in x], dtype=float)
-    qa = np.array([float(v) for v in q], dtype=float)
+    xa = S.arr([float(v) for v in x], dtype=float)
+    qa = S.arr([float(v) for v in q], dtype=float)
     try:
         r = sau.find_closest_element_indices_to_values(xa, qa, strategy=c["s"], fill_not_valid=c["fill"])
         return {"ok": [int(v) for v in r]}
